@@ -547,6 +547,27 @@ def batch_oracle(ctx, lines, impl):
                 elif exp_u == ("ignore",):
                     verdicts[i] = "MYSQLIGNORE ON DUPLICATE KEY IGNORE is not a MySQL statement (do_nothing() without key columns)"
                 UPSTAT[0] += 1
+        # the predicates of the upsert clause (Postgres): the conflict-target predicate and the action predicate are
+        # each written once when given (target_where / action_where calls), whatever the action
+        if verdicts[i] is None and prog[0] == "insert" and b == "pg":
+            oc = [c for c in prog[1:] if isinstance(c, list) and c and c[0] == "onconflict"]
+            if oc:
+                ops = [o[0] for o in oc[-1][1:] if isinstance(o, list) and o]
+                want_p = ("twhere" in ops) + ("awhere" in ops)
+                d0, seen, cnt = 0, False, 0
+                for j, t in enumerate(tl):
+                    if t == ("C", "("):
+                        d0 += 1
+                    elif t == ("C", ")"):
+                        d0 -= 1
+                    elif d0 == 0 and t == ("W", "ON") and j + 1 < len(tl) and tl[j + 1] == ("W", "CONFLICT"):
+                        seen = True
+                    elif d0 == 0 and seen and t == ("W", "RETURNING"):
+                        break
+                    elif d0 == 0 and seen and t == ("W", "WHERE"):
+                        cnt += 1
+                if seen and cnt != want_p:
+                    verdicts[i] = "the upsert clause carries %d predicate(s); the on-conflict calls give %d (target_where / action_where)" % (cnt, want_p)
         # dialect-specific constructs only in their own dialect (keywords outside literals/identifiers)
         text = " ".join(t[1] for t in tl if t[0] in "WOC")
         text = text.replace("( ", "(")
